@@ -102,6 +102,35 @@ def engine_regressions(fast):
         print(f"G3 cli.run_date option forwarding: unchanged {'proved' if good else 'NOT proved'}; seeded C34 -> "
               f"{'caught' if caught else 'MISSED'}")
         ok = ok and good and caught
+    # ---- vt/g3_sites.py (z3-backed statement contracts): unchanged source proved, second-round seeds refuted
+    from . import g3 as g3m, g3_sites, runner as rn
+    for seed, pid, fn, obname in (
+            ("C21b", "C21", g3_sites.propagate_prior_bookkeeping,
+             "variational.ExpectationPropagation.propagate_prior:C21-posterior-equals-scale-times-sum-of-messages-after-prior-update"),
+            ("C31b", "C31", g3_sites.site_time_rule, "util.sites_time_from_ts:no-early-exit-from-the-loops"),
+            ("C14b", "C14", g3_sites.prior_table_assembly,
+             "prior.ConditionalCoalescentTimes.add:exact-or-approximate-is-decided-by-this-call's-arguments-only"),
+            ("C30", "C30", g3_sites.unary_detection, "util._contains_unary_nodes:sweep-runs-until-every-edge-has-entered-and-left")):
+        patch = os.path.join(VERIF, "seeded", seed, "patch.diff")
+        if not os.path.exists(patch):
+            continue
+
+        def run_(fn=fn, pid=pid):
+            ctx = rn.Ctx(pid, "quick", 0)
+            fn(g3m.G3(ctx))
+            return {o.name: o.verdict for o in ctx.obs}
+        base = with_repo(d0, run_)
+        good = bool(base) and all(v == "proved" for v in base.values())
+
+        def edit_(d, patch=patch):
+            subprocess.run(["patch", "-p1", "-s", "--no-backup-if-mismatch", "-i", patch], cwd=d, check=True)
+        d = _scratch_repo(edit_)
+        seeded = with_repo(d, run_)
+        shutil.rmtree(d)
+        caught = seeded.get(obname) == "refuted"
+        print(f"g3_sites {fn.__name__}: unchanged {len(base)} obligation(s) {'all proved' if good else 'NOT all proved'}; "
+              f"seeded {seed} -> {'caught' if caught else 'MISSED'}")
+        ok = ok and good and caught
     shutil.rmtree(d0)
     if fast:
         return ok
